@@ -13,6 +13,7 @@ from mc.runner import Acc, chunks, pmap
 
 JUMP_BUDGET = 20000
 UNIT_CALLS = 40000
+SPIN_LIMIT = 3000
 
 _watched = False
 
@@ -266,19 +267,83 @@ def _unit(unit):
     _ensure_watch()
     judge = JUDGES[prop]
     acc = Acc()
+    spins = 0
     for n, params, axes in insts:
         cube = K.Cube(typ, n, params, axes)
         acc.c["instances"] += 1
         for box in K.boxes(axes):
+            if spins >= SPIN_LIMIT:  # a tree on which calls do not terminate: keep the check's run time bounded
+                acc.c["calls_skipped_after_repeated_spins"] += 1
+                continue
             acc.c["calls"] += 1
             status, out, exc = safe_call(typ, box, params)
+            if exc == "budget":
+                spins += 1
             judge(acc, typ, n, params, axes, box, status, out, exc, cube)
             if not acc.samples and status == 1 and tuple(out) != tuple(box):
                 acc.sample({"type": typ, "n": n, "params": list(params), "box": [list(b) for b in box],
                             "status": status, "out": [list(b) for b in out],
                             "oracle_hull": cube.hull(box)}, cap=1)
     acc.mx("max_jumps_in_a_terminating_call", budget.max_used())
+    if acc.c["calls_skipped_after_repeated_spins"]:
+        acc.caps.append(f"{acc.c['calls_skipped_after_repeated_spins']} calls of {typ} skipped after {SPIN_LIMIT} non-terminating calls in one work unit")
     return acc
+
+
+def _ground_unit(unit):
+    """Ground tuples only, at arities the box enumeration cannot afford (C06)."""
+    import itertools
+
+    prop, tier, typ, insts = unit
+    _ensure_watch()
+    judge = JUDGES[prop]
+    acc = Acc()
+    pred = K.PRED[typ]
+
+    class PointOracle:
+        def __init__(self, params):
+            self.params = params
+
+        def holds(self, x):
+            return bool(pred(tuple(x), self.params))
+
+    for n, params, axes, mode in insts:
+        oracle = PointOracle(tuple(params))
+        acc.c["ground_instances"] += 1
+        if mode == "perms":
+            lo = axes[0][0]
+            points = (tuple(v + lo for v in p) for p in itertools.permutations(range(n)))
+        else:
+            points = itertools.product(*[range(a, b + 1) for a, b in axes])
+        for x in points:
+            box = tuple((v, v) for v in x)
+            acc.c["calls"] += 1
+            acc.c["ground_only_calls"] += 1
+            status, out, exc = safe_call(typ, box, params)
+            judge(acc, typ, n, params, axes, box, status, out, exc, oracle)
+    return acc
+
+
+def run_ground(prop, tier, seed, types=None) -> Acc:
+    units = []
+    for typ in types or K.TYPES:
+        cur, cost = [], 0
+        for n, params, axes, mode in K.ground_instances(typ, tier):
+            size = 1
+            if mode == "perms":
+                import math
+                size = math.factorial(n)
+            else:
+                for a, b in axes:
+                    size *= b - a + 1
+            cur.append((n, params, axes, mode))
+            cost += size
+            if cost >= UNIT_CALLS:
+                units.append((prop, tier, typ, cur))
+                cur, cost = [], 0
+        if cur:
+            units.append((prop, tier, typ, cur))
+    return pmap(_ground_unit, units, seed)
 
 
 def units_for(prop, tier, types=None):
